@@ -68,6 +68,7 @@ type pCase struct {
 	Pre      []pPre                     `json:"pre,omitempty"`
 	Conc     bool                       `json:"conc,omitempty"`
 	C16      bool                       `json:"c16,omitempty"`
+	API      string                     `json:"api,omitempty"` // "" / packer: a Packer value; legacy-*: the package-level Pack
 	WFaults  bool                       `json:"wfaults,omitempty"`
 	Canon    *pCanon                    `json:"canon,omitempty"`
 	St       string                     `json:"st"`
@@ -230,8 +231,9 @@ func runPackCase(base string, c *pCase) (obs *pObs, infra string) {
 			}
 		}
 		p := newPacker(g, root, c.Opts)
+		legacy := strings.HasPrefix(c.API, "legacy")
 		other := g.Abs(root, []string{"A", "cw", "t"})
-		if _, err := os.Lstat(other); err == nil {
+		if _, err := os.Lstat(other); err == nil && !legacy {
 			// A Packer is an options object: the very value used below first packs another
 			// root (which holds an external link, so every validation path runs). This must not matter.
 			var sink bytes.Buffer
@@ -262,7 +264,13 @@ func runPackCase(base string, c *pCase) (obs *pObs, infra string) {
 			go func() { wg.Wait(); close(gate) }()
 			sinkW = &gateWriter{w: &buf, gate: gate}
 		}
-		meta, perr := p.Pack(g.Spell(root, c.Spelling), sinkW)
+		var meta *slug.Meta
+		var perr error
+		if legacy {
+			meta, perr = slug.Pack(g.Spell(root, c.Spelling), sinkW, c.Opts.Deref)
+		} else {
+			meta, perr = p.Pack(g.Spell(root, c.Spelling), sinkW)
+		}
 		wg.Wait()
 		obs.St = statusOf(perr)
 		if perr != nil {
@@ -425,7 +433,7 @@ type wproc struct {
 	cmd  *exec.Cmd
 	in   io.WriteCloser
 	out  *bufio.Reader
-	err  *bytes.Buffer
+	err  *capWriter
 	base string
 }
 
@@ -438,8 +446,8 @@ func startWorker() (*wproc, error) {
 	cmd.Env = append(os.Environ(), "VH_PACKW_BASE="+wbase)
 	in, _ := cmd.StdinPipe()
 	out, _ := cmd.StdoutPipe()
-	eb := &bytes.Buffer{}
-	cmd.Stderr = &capWriter{buf: eb, max: 1 << 16}
+	eb := &capWriter{buf: &bytes.Buffer{}, max: 1 << 16}
+	cmd.Stderr = eb
 	if err := cmd.Start(); err != nil {
 		arena.RemoveAll(wbase)
 		return nil, err
@@ -448,11 +456,23 @@ func startWorker() (*wproc, error) {
 }
 
 type capWriter struct {
+	mu  sync.Mutex
 	buf *bytes.Buffer
 	max int
 }
 
+// text returns what was captured so far and forgets it.
+func (c *capWriter) text() string {
+	c.mu.Lock()
+	defer c.mu.Unlock()
+	s := c.buf.String()
+	c.buf.Reset()
+	return s
+}
+
 func (c *capWriter) Write(p []byte) (int, error) {
+	c.mu.Lock()
+	defer c.mu.Unlock()
 	if c.buf.Len() < c.max {
 		c.buf.Write(p[:min(len(p), c.max-c.buf.Len())])
 	}
@@ -570,7 +590,7 @@ func packMain() int {
 		reply, status := workers[w].call(line, timeout)
 		var obs pObs
 		if status != "" {
-			tail := workers[w].err.String()
+			tail := workers[w].err.text()
 			workers[w].kill()
 			workers[w] = nil
 			obs = pObs{Tree: c.Tree, Src: c.Src, Cwd: c.Cwd, Spelling: c.Spelling, Opts: c.Opts, Rules: c.Rules, Lines: c.Lines, Pre: c.Pre,
@@ -594,9 +614,8 @@ func packMain() int {
 				acc.Infra("bad reply: " + err.Error())
 				return
 			}
-			if workers[w] != nil && strings.Contains(workers[w].err.String(), "DATA RACE") {
+			if workers[w] != nil && strings.Contains(workers[w].err.text(), "DATA RACE") {
 				obs.Race = true
-				workers[w].err.Reset()
 			}
 		}
 		obs.Canon = canon
